@@ -783,18 +783,28 @@ Proof.
   cbn [map flat_map]. now rewrite IH.
 Qed.
 
+Lemma conc_init_J_gen s0 progs :
+  TI (cc_xtargets progs) s0 -> NoDup (cc_xtargets progs) -> (forall sp, In sp progs -> Forall A_cls (snd sp)) ->
+  J (cc_init_from s0 progs).
+Proof.
+  intros T Hnd Hcl. split; [reflexivity|]. rewrite pend_init. split; [exact T|]. split; [exact Hnd|].
+  intros t th Hn. cbn [cc_init_from cc_init_gen cf_threads] in Hn. rewrite nth_error_map in Hn.
+  destruct (nth_error progs t) as [sp|] eqn:Hs; [|discriminate]. inversion Hn; subst th. split; cbn; [|discriminate].
+  apply Hcl. eapply nth_error_In; eauto.
+Qed.
+
+Lemma forallb_A_cls ops : forallb cc_wtq_op ops = true -> Forall A_cls ops.
+Proof. intros H. rewrite forallb_forall in H. apply Forall_forall. intros o Ho. now apply H. Qed.
+
 Lemma conc_init_J s0 progs : WF s0 -> cc_kinds_ok s0 = true -> cc_wtq s0 progs = true -> J (cc_init_from s0 progs).
 Proof.
-  intros W Hk Hcl. unfold cc_wtq, cc_xfresh in Hcl. split_andb.
-  split; [reflexivity|]. rewrite pend_init. split; [|split; [now apply nodupb_spec|]].
+  intros W Hk Hcl. unfold cc_wtq, cc_xfresh in Hcl. split_andb. apply conc_init_J_gen.
   - split; [exact W | now apply kinds_ok_KI |]. intros y Hy.
     match goal with H : forallb (cc_absent s0) _ = true |- _ => rewrite forallb_forall in H; specialize (H y Hy) end.
-    unfold cc_absent in *. change (lookup s0 y = None). now destruct (lookup s0 y).
-  - intros t th Hn. cbn [cc_init_from cc_init_gen cf_threads] in Hn. rewrite nth_error_map in Hn.
-    destruct (nth_error progs t) as [sp|] eqn:Hs; [|discriminate]. inversion Hn; subst th. split; cbn; [|discriminate].
-    match goal with H : forallb _ progs = true |- _ => rewrite forallb_forall in H; specialize (H sp (nth_error_In _ _ Hs)) end.
-    apply Forall_forall. intros o Ho. unfold A_cls.
-    match goal with H : forallb cc_wtq_op _ = true |- _ => rewrite forallb_forall in H; now apply H end.
+    unfold cc_absent in *. now destruct (lookup s0 y).
+  - now apply nodupb_spec.
+  - intros sp Hsp. apply forallb_A_cls.
+    match goal with H : forallb _ progs = true |- _ => rewrite forallb_forall in H; now apply H end.
 Qed.
 
 (* ================================================================== WF and the three clauses of the property *)
@@ -855,6 +865,184 @@ Qed.
 Corollary WF_consistentb s : WF s -> cc_consistentb s = true.
 Proof. intros W. apply cc_consistentb_spec. now apply WF_tree_consistent. Qed.
 
+(* ================================================================== the same calls run sequentially (setup, prologues) *)
+Lemma TI_set_file_mode G s k m : TI G s -> TI G (fst (set_file_mode s k m)).
+Proof.
+  intros T. unfold set_file_mode. destruct (lookup s (normalize_path k)); [|exact T]. cbn [fst]. apply TI_attr; [intros; reflexivity | exact T].
+Qed.
+
+Lemma TI_step_nr G s o : Forall xpath G -> TI G s -> A_cls o -> is_rename_op o = false -> TI G (fst (m_step_raw s o)).
+Proof.
+  intros HG T HA Hnr.
+  assert (Hh : op_handle_of o <> None -> TI G (fst (m_step_raw s o))).
+  { intros Hh. eapply TI_tree; [|exact T]. symmetry. now apply tree_handle_op. }
+  destruct o; try (apply Hh; discriminate); try discriminate Hnr; try discriminate HA (* Chown: not in the class *); cbn [m_step_raw].
+  - (* Create *)
+    pose proof HA as HA'. unfold A_cls, cc_wtq_op in HA'. cbn [cc_wt_op cc_names_ok] in HA'. split_andb.
+    match goal with H : wf_name p = true |- _ => pose proof (wf_name_canon p H) as Hc end.
+    assert (E : m_create s p = m_create s (normalize_path p)) by (unfold m_create; now rewrite (canon_norm _ Hc)).
+    rewrite E. now apply TI_create.
+  - (* Mkdir *)
+    unfold m_mkdir. destruct (lookup s (normalize_path p)) eqn:Hl; [exact T|].
+    destruct (below_file s (normalize_path p)); [exact T|].
+    change (TI G (fst (set_file_mode (cc_mkdir_body s (normalize_path p) (Z.land perm chmod_bits)) (normalize_path p)
+                                     (Z.lor (Z.land perm chmod_bits) mode_dir)))).
+    apply TI_set_file_mode. apply TI_mkdir_body; auto.
+  - (* MkdirAll *)
+    rewrite m_mkdirall_fst. unfold m_mkdir. destruct (lookup s (normalize_path p)) eqn:Hl; [exact T|].
+    destruct (below_file s (normalize_path p)); [exact T|].
+    change (TI G (fst (set_file_mode (cc_mkdir_body s (normalize_path p) (Z.land perm chmod_bits)) (normalize_path p)
+                                     (Z.lor (Z.land perm chmod_bits) mode_dir)))).
+    apply TI_set_file_mode. apply TI_mkdir_body; auto.
+  - (* Open *)
+    unfold m_open. destruct (lookup s (normalize_path p)); [|exact T]. unfold alloc_handle. cbn [fst]. eapply TI_tree; [|exact T]. reflexivity.
+  - (* OpenFile *)
+    pose proof HA as HA'. unfold A_cls, cc_wtq_op in HA'. cbn [cc_wt_op cc_names_ok] in HA'. split_andb.
+    destruct (wtq_file_name p) as (Hc & Hf & Hkr); auto.
+    set (k := normalize_path p) in *. assert (Hanc : dirnames_above k) by now apply anc_ok_spec.
+    unfold m_openfile. fold k.
+    assert (Tail : forall (s1 : mst) (f : nat) (created : bool), TI G s1 ->
+      TI G (fst (let ro := Z.land flag memfs_access_mask =? 0 in
+         let data := match get_node s1 f with Some n => ndata n | None => [] end in
+         let at_ := if flag_has flag o_append then zlen data else 0 in
+         let trunc := flag_has flag o_trunc && flag_has flag (Z.lor o_rdwr o_wronly) in
+         let s2 := if trunc && negb ro then upd_node s1 f (fun n => with_mtime (mclock s1) (with_data [] n)) else s1 in
+         let '(s3, h) := alloc_handle s2 (mkH f (if trunc && negb ro then at_ else at_) 0 false ro) in
+         if trunc && ro then (s2, RErr (EW KReadOnlyHandle))
+         else if created then match set_file_mode s3 k (Z.land perm chmod_bits) with (s4, ROk) => (s4, RHandle h) | (s4, r) => (s4, r) end
+         else (s3, RHandle h)))).
+    { intros s1 f created T1. cbv zeta.
+      set (tr := flag_has flag o_trunc && flag_has flag (Z.lor o_rdwr o_wronly)). set (ro := Z.land flag memfs_access_mask =? 0).
+      assert (T2 : TI G (if tr && negb ro then upd_node s1 f (fun n => with_mtime (mclock s1) (with_data [] n)) else s1)).
+      { destruct (tr && negb ro); [|exact T1]. apply TI_attr; [intros; reflexivity | exact T1]. }
+      match goal with |- context [alloc_handle ?a ?b] =>
+        pose proof (TI_alloc_handle G a b T2) as T3; destruct (alloc_handle a b) as [s3 h] end.
+      cbn [fst] in T3. destruct (tr && ro); [exact T2|]. destruct created; [|exact T3].
+      pose proof (TI_set_file_mode G s3 k (Z.land perm chmod_bits) T3) as T4.
+      destruct (set_file_mode s3 k (Z.land perm chmod_bits)) as [s4 r4]. cbn [fst] in T4. destruct r4; exact T4. }
+    pose proof T as [W K X].
+    destruct (lookup s k) as [f|] eqn:Hl.
+    + destruct (flag_has flag o_excl && flag_has flag o_create); [exact T|]. exact (Tail s f false T).
+    + destruct (flag_has flag o_create) eqn:Hcr; [|exact T].
+      rewrite (typed_below_file s k W K Hc Hanc).
+      assert (T' : TI G (fst (m_create_node s k))).
+      { rewrite m_create_node_eq. cbn [fst]. apply (TI_new_file G s k 0 mode_temporary HG T Hc Hf Hanc Hl). }
+      destruct (m_create_node s k) as [s1 f]. exact (Tail s1 f true T').
+  - (* Remove *)
+    pose proof HA as HA'. unfold A_cls, cc_wtq_op in HA'. cbn [cc_wt_op cc_names_ok] in HA'. split_andb.
+    match goal with H : wf_name p = true |- _ => pose proof (wf_name_canon p H) as Hc end.
+    assert (E : m_remove s p = m_remove s (normalize_path p)) by (unfold m_remove; now rewrite (canon_norm _ Hc)).
+    rewrite E. now apply TI_remove.
+  - (* RemoveAll *)
+    pose proof HA as HA'. unfold A_cls, cc_wtq_op in HA'. cbn [cc_wt_op cc_names_ok] in HA'. split_andb.
+    match goal with H : wf_name p = true |- _ => pose proof (wf_name_canon p H) as Hc end.
+    assert (E : m_removeall s p = m_removeall s (normalize_path p)) by (unfold m_removeall; now rewrite (canon_norm _ Hc)).
+    rewrite E. now apply TI_removeall.
+  - (* Stat *)
+    unfold m_stat. destruct (lookup s (normalize_path p)) as [f|]; [|exact T]. destruct (get_node s f); exact T.
+  - (* Chmod *) eapply TI_tree; [|exact T]. symmetry. apply tree_m_chmod.
+  - (* Chtimes *) eapply TI_tree; [|exact T]. symmetry. apply tree_m_chtimes.
+Qed.
+
+Lemma TI_step G G' s o : Forall xpath G -> TI G s -> A_cls o -> incl (cc_xt_op o) G -> incl G' G ->
+  (forall y, In y (cc_xt_op o) -> ~ In y G') -> TI G' (fst (m_step s o)).
+Proof.
+  intros HG T HA Hin Hi Hx.
+  assert (H : TI G' (fst (m_step_raw s o))).
+  { destruct (is_rename_op o) eqn:Hr; [|apply (TI_incl G); [exact Hi | now apply TI_step_nr]].
+    destruct o; try discriminate Hr. cbn [m_step_raw].
+    pose proof HA as HA'. unfold A_cls, cc_wtq_op in HA'. cbn [cc_wt_op cc_names_ok] in HA'. split_andb.
+    match goal with H : wf_name p = true |- _ => pose proof (wf_name_canon p H) as Hc end.
+    assert (E : m_rename s p q = m_rename s (normalize_path p) q) by (unfold m_rename; now rewrite (canon_norm _ Hc)).
+    rewrite E. apply (TI_rename G); auto.
+    - intros Hxq. apply Hin. cbn [cc_xt_op]. rewrite Hxq. now left.
+    - intros Hxq. apply Hx. cbn [cc_xt_op]. rewrite Hxq. now left. }
+  unfold m_step. destruct (m_step_raw s o) as [s1 r]. cbn [fst] in *. eapply TI_tree; [|exact H]. reflexivity.
+Qed.
+
+Lemma handle_op_cls o h : op_handle_of o <> None -> A_cls (op_set_handle o h) /\ cc_xt_op (op_set_handle o h) = [] /\ cc_xt_op o = [].
+Proof. destruct o; cbn [op_handle_of]; try congruence; intros _; repeat split. Qed.
+
+Lemma cc_seq_TI : forall ops s slots G0,
+  Forall A_cls ops -> Forall xpath G0 -> NoDup (cc_xt_ops ops ++ G0) -> TI (cc_xt_ops ops ++ G0) s ->
+  TI G0 (fst (cc_seq s slots ops)).
+Proof.
+  induction ops as [|o ops IH]; intros s slots G0 Hcl HG0 Hnd T; [exact T|].
+  inversion Hcl as [|? ? HAo Hrest]; subst.
+  assert (HG : Forall xpath (cc_xt_ops (o :: ops) ++ G0)) by (apply Forall_app; split; [now apply xt_ops_xpath | exact HG0]).
+  unfold cc_xt_ops in *. cbn [flat_map] in *. rewrite <- app_assoc in *.
+  assert (Hnd' : NoDup (flat_map cc_xt_op ops ++ G0) /\ forall y, In y (cc_xt_op o) -> ~ In y (flat_map cc_xt_op ops ++ G0)).
+  { apply (nodup_drop [] (cc_xt_op o) (flat_map cc_xt_op ops ++ G0)). exact Hnd. }
+  destruct Hnd' as [Hnd1 Hnd2].
+  assert (Hstep : forall o', A_cls o' -> cc_xt_op o' = cc_xt_op o \/ cc_xt_op o' = [] ->
+            TI (flat_map cc_xt_op ops ++ G0) (fst (m_step s o'))).
+  { intros o' HA' Hxt. apply (TI_step (cc_xt_op o ++ flat_map cc_xt_op ops ++ G0)); auto.
+    - destruct Hxt as [-> | ->]; [apply incl_appl, incl_refl | intros y []].
+    - apply incl_appr, incl_refl.
+    - destruct Hxt as [-> | ->]; [exact Hnd2 | intros y []]. }
+  cbn [cc_seq]. destruct (op_handle_of o) as [i|] eqn:Hh.
+  - destruct (nth_error slots i) as [[h|]|].
+    + destruct (handle_op_cls o h) as (HA' & Hx' & Hxo); [congruence|].
+      pose proof (Hstep _ HA' (or_intror Hx')) as T1. destruct (m_step s (op_set_handle o h)) as [s1 r1]. cbn [fst] in T1. now apply IH.
+    + apply IH; auto. apply (TI_incl (cc_xt_op o ++ flat_map cc_xt_op ops ++ G0)); [apply incl_appr, incl_refl | exact T].
+    + apply IH; auto. apply (TI_incl (cc_xt_op o ++ flat_map cc_xt_op ops ++ G0)); [apply incl_appr, incl_refl | exact T].
+  - pose proof (Hstep o HAo (or_introl eq_refl)) as T1. destruct (m_step s o) as [s1 r1]. cbn [fst] in T1. now apply IH.
+Qed.
+
+Lemma cc_prologues_TI : forall (progs : list (list op * list op)) s G0,
+  Forall A_cls (flat_map fst progs) -> Forall xpath G0 -> NoDup (cc_xt_ops (flat_map fst progs) ++ G0) ->
+  TI (cc_xt_ops (flat_map fst progs) ++ G0) s ->
+  TI G0 (fst (cc_prologues s progs)) /\ map snd (snd (cc_prologues s progs)) = map snd progs.
+Proof.
+  induction progs as [|[pro ops] progs IH]; intros s G0 Hcl HG0 Hnd T; [split; [exact T | reflexivity]|].
+  cbn [flat_map fst] in *. apply Forall_app in Hcl as [Hc1 Hc2].
+  unfold cc_xt_ops in *. rewrite flat_map_app, <- app_assoc in *.
+  assert (HG1 : Forall xpath (flat_map cc_xt_op (flat_map fst progs) ++ G0)) by (apply Forall_app; split; [now apply xt_ops_xpath | exact HG0]).
+  pose proof (cc_seq_TI pro s [] _ Hc1 HG1 Hnd T) as T1.
+  cbn [cc_prologues]. destruct (cc_seq s [] pro) as [s1 slots]. cbn [fst] in T1.
+  assert (Hnd1 : NoDup (flat_map cc_xt_op (flat_map fst progs) ++ G0)).
+  { apply (nodup_drop [] (flat_map cc_xt_op pro) _ Hnd). }
+  destruct (IH s1 G0 Hc2 HG0 Hnd1 T1) as [T2 E2]. destruct (cc_prologues s1 progs) as [s2 rest]. cbn [fst snd] in *.
+  split; [exact T2|]. cbn [map snd]. now rewrite E2.
+Qed.
+
+Lemma TI_init G : Forall xpath G -> TI G m_init.
+Proof.
+  intros HG. split; [exact WF_init | apply kinds_ok_KI; reflexivity |]. intros y Hy. rewrite Forall_forall in HG.
+  destruct (HG y Hy) as (_ & Hx & _). unfold lookup, m_init. cbn [mdata alist_get]. destruct (beqb y s_slash) eqn:E; [|reflexivity].
+  apply beqb_eq in E. subst y. discriminate Hx.
+Qed.
+
+Lemma xtargets_map_snd (ps : list (list (option nat) * list op)) (progs : list (list op * list op)) :
+  map snd ps = map snd progs -> cc_xtargets ps = cc_xt_ops (flat_map snd progs).
+Proof.
+  revert progs. induction ps as [|sp ps IH]; intros [|pp progs] H; try discriminate; [reflexivity|].
+  cbn [map] in H. inversion H as [[H1 H2]]. unfold cc_xtargets, cc_xt_ops in *. cbn [flat_map]. rewrite flat_map_app, H1. f_equal. now apply IH.
+Qed.
+
+Theorem conc_case_J setup progs : cc_case_wtq setup progs = true -> J (cc_case_cfg setup progs).
+Proof.
+  intros Hcl. unfold cc_case_wtq, cc_case_ops in Hcl. apply andb_true_iff in Hcl as [Hops Hnd].
+  apply forallb_A_cls in Hops. apply nodupb_spec in Hnd. apply Forall_app in Hops as [Hc1 Hops]. apply Forall_app in Hops as [Hc2 Hc3].
+  unfold cc_xt_ops in Hnd. rewrite !flat_map_app in Hnd. fold (cc_xt_ops setup) (cc_xt_ops (flat_map fst progs)) (cc_xt_ops (flat_map snd progs)) in Hnd.
+  set (G3 := cc_xt_ops (flat_map snd progs)) in *. set (G2 := cc_xt_ops (flat_map fst progs)) in *.
+  assert (HG3 : Forall xpath G3) by now apply xt_ops_xpath.
+  assert (HG23 : Forall xpath (G2 ++ G3)) by (apply Forall_app; split; [now apply xt_ops_xpath | exact HG3]).
+  assert (HGall : Forall xpath (cc_xt_ops setup ++ G2 ++ G3)) by (apply Forall_app; split; [now apply xt_ops_xpath | exact HG23]).
+  pose proof (cc_seq_TI setup m_init [] (G2 ++ G3) Hc1 HG23 Hnd (TI_init _ HGall)) as T0.
+  unfold cc_case_cfg. destruct (cc_seq m_init [] setup) as [s0 sl0]. cbn [fst] in T0.
+  assert (Hnd23 : NoDup (G2 ++ G3)) by (apply (nodup_drop [] (cc_xt_ops setup) _ Hnd)).
+  destruct (cc_prologues_TI progs s0 G3 Hc2 HG3 Hnd23 T0) as [T1 E1].
+  destruct (cc_prologues s0 progs) as [s1 ps]. cbn [fst snd] in *.
+  assert (Ex : cc_xtargets ps = G3) by now apply xtargets_map_snd.
+  apply conc_init_J_gen.
+  - now rewrite Ex.
+  - rewrite Ex. apply (nodup_drop [] G2 G3 Hnd23).
+  - intros sp Hsp. rewrite Forall_forall in Hc3 |- *. intros o Ho. apply Hc3. apply in_flat_map.
+    assert (Hin : In (snd sp) (map snd progs)) by (rewrite <- E1; now apply in_map).
+    apply in_map_iff in Hin as (pp & Epp & Hpp). exists pp. split; [exact Hpp | now rewrite Epp].
+Qed.
+
 (* ================================================================== the theorem *)
 Theorem conc_quiescent_TI s0 progs sched :
   WF s0 -> cc_kinds_ok s0 = true -> cc_wtq s0 progs = true ->
@@ -867,5 +1055,20 @@ Theorem conc_quiescent_consistent s0 progs sched :
   WF s /\ cc_consistentb s = true /\ cc_clause_parent s /\ cc_clause_listed s.
 Proof.
   intros W Hk Hcl s. destruct (conc_quiescent_TI s0 progs sched W Hk Hcl) as (_ & [W' _ _] & _).
+  split; [exact W'|]. split; [now apply WF_consistentb | now apply WF_tree_consistent].
+Qed.
+
+Theorem conc_quiescent_empty progs sched :
+  cc_wtq m_init progs = true -> cc_consistentb (cf_st (cc_run_from m_init progs sched)) = true.
+Proof. intros H. apply (conc_quiescent_consistent m_init progs sched WF_init); [reflexivity | exact H]. Qed.
+
+(* a whole case of the harness: setup and prologues run sequentially from the empty filesystem, then
+   the goroutines run concurrently under any schedule *)
+Theorem conc_quiescent_case setup progs sched :
+  cc_case_wtq setup progs = true ->
+  let s := cf_st (run_sched_from (cc_case_cfg setup progs) sched) in
+  WF s /\ cc_consistentb s = true /\ cc_clause_parent s /\ cc_clause_listed s.
+Proof.
+  intros Hcl s. destruct (conc_run_J sched _ (conc_case_J setup progs Hcl)) as (_ & [W' _ _] & _).
   split; [exact W'|]. split; [now apply WF_consistentb | now apply WF_tree_consistent].
 Qed.
